@@ -102,7 +102,7 @@ def write_history(d, files, rng, decorate=True):
     return base, scan
 
 
-def impl_replay(base, look, limit, sched, factor=1.0):
+def impl_replay(base, look, limit, sched, factor=1.0, upcomings=None):
     from cpppo.history import files as F, times as T
     from cpppo.history.times import timestamp
     clock = [BASIS]
@@ -119,7 +119,8 @@ def impl_replay(base, look, limit, sched, factor=1.0):
             _armed[0] = True
             signal.setitimer(signal.ITIMER_REAL, 1.5, 0.5)
             try:
-                cur, events = ld.load(limit=limit)
+                up = None if upcomings is None else upcomings[len(out)]
+                cur, events = ld.load(limit=limit) if up is None else ld.load(limit=limit, upcoming=timestamp(EPOCH + up / 1000.0))
             except Hang:
                 _armed[0] = False
                 out.append(('HANG', now)); break
@@ -316,6 +317,54 @@ def run(ctx):
             cases.append(enc_case(scan, look, limit, sched)); meta.append((files, scan, look, limit, sched, out, vals, factor))
     finally:
         shutil.rmtree(tmp, ignore_errors=True)
+    # ---- load( upcoming=... ): events at or after the given horizon are held back, not lost.  Outside the model (which has no `upcoming`):
+    # judged on the implementation alone, on histories without any of the recorded shapes (strictly increasing, files strictly ordered)
+    nup = 0
+    tmp2 = tempfile.mkdtemp(prefix='c18u_')
+    try:
+        for i in range(120 if ctx.thorough else 25):
+            files = gen_history(rng, shape='plain')
+            files = [[r for r in recs if r[1] == 0] for recs in files]
+            if any(len(recs) < 2 for recs in files):
+                continue
+            look = rng.choice([0, 0, 50])
+            sched = gen_sched(rng, files, look)
+            ups = []
+            for now in sched[:-3]:
+                allts = [r[0] for recs in files for r in recs]
+                ups.append(rng.choice([None, now, now - 10, now - 40, now + 30, rng.choice(allts)]))
+            ups += [None, None, None]
+            d = os.path.join(tmp2, 'u%d' % i); os.mkdir(d)
+            base, scan = write_history(d, files, rng, decorate=False)
+            out, vals = impl_replay(base, look, None, sched, 1.0, ups)
+            shutil.rmtree(d, ignore_errors=True)
+            nup += 1
+            desc = dict(files_newest_first=[(ext, recs) for ext, recs in scan], lookahead_ms=look, schedule_ms=sched, upcoming_ms=ups)
+            expected_all = [(ts, sorted(regs)) for recs in reversed(files) for ts, kind, regs in recs]
+            start = sched[0]
+            k0 = 0
+            for k, recs in enumerate(reversed(files)):
+                if recs[0][0] <= start + 1:
+                    k0 = k
+            expected = [(ts, sorted(regs)) for recs in list(reversed(files))[k0:] for ts, kind, regs in recs]
+            if any(x[0] in ('EXC', 'HANG') for x in out):
+                nbad += 1; ctx.violation(desc, 'load( upcoming=... ) raised or did not return'); continue
+            early = [(up, e) for (st, evs), up in zip(out, ups) if up is not None for e in evs if e[0] >= up + 1]
+            delivered = [e for st, evs in out for e in evs]
+            last = {}
+            for ts, regs in expected:
+                for r, v in regs:
+                    last[r] = v
+            # (`upcoming` governs when a record is applied to the register map, not when load() reports having read it: not judged)
+            if out[-1][0] != 5 or delivered != expected:
+                nbad += 1; ctx.violation(dict(desc, states=[ST.get(x[0], x[0]) for x in out], events=[x[1] for x in out]),
+                                         'with `upcoming` horizons the replay did not deliver every record exactly once, in order, and complete')
+            elif sorted(last.items()) != vals:
+                nbad += 1; ctx.violation(dict(desc, final_values=vals, last_logged=sorted(last.items())),
+                                         'after a replay that used `upcoming` horizons the register map differs from the last value logged for each register')
+    finally:
+        shutil.rmtree(tmp2, ignore_errors=True)
+    cov['upcoming_replays'] = nup
     outs = core.run_model('history', cases)
     ncomplete = 0
     for (files, scan, look, limit, sched, out, vals, factor), o in zip(meta, outs):
